@@ -301,7 +301,7 @@ def c_remove_parents():
 
 # locals of __call__ in binding order: v0 changed, v1 parent, v2 old, v3 name, v4 old_value, v5 outer, v6 new_value, v7 e
 LOOP_SKELETON = """for v1 in self.parents.keyrefs():
-    if (v1 := v1()):
+    if (v1 := v1()) is not None:
         for v3, v4 in self.parents[v1].items():
             v5, CURRENT_COMPUTED = (CURRENT_COMPUTED, None)
             try:
@@ -389,9 +389,6 @@ def c_skeleton():
     fn = _call_fn()
     loop, test = _loop(fn)
     txt = ast.unparse(loop).replace("if " + ast.unparse(test.test) + ":", "if COND:", 1)
-    # the liveness test of the weak reference may be spelled by truth value (as now) or `is not None` (the repair
-    # proposed for owners whose truth value is False): the model's `alive` is either
-    txt = txt.replace("if (v1 := v1()) is not None:", "if (v1 := v1()):", 1)
     if txt != LOOP_SKELETON:
         got, want = txt.splitlines(), LOOP_SKELETON.splitlines()
         d = [f"{a!r} != {b!r}" for a, b in zip(got, want) if a != b] or [f"{len(got)} lines, expected {len(want)}"]
